@@ -163,11 +163,47 @@ def run(tier, seed, out, drv, facts):
         out.case(("struct", str(d)), True)
         if got != want:
             out.violation(f"struct:{d}", f"make_numpy_struct_dtype class gives {got} for dtype {d}, must be {want}", {"dtype": str(d)})
+    # structured dtypes whose printed form has upper-case type codes / field names: a class made for the dtype accepts
+    # exactly that dtype (names are compared as they are: no case folding, no trimming)
+    structs = [
+        np.dtype([("name", "U10"), ("score", np.float32)]), np.dtype([("tag", "S4"), ("n", np.int32)]),
+        np.dtype([("when", "M8[ns]"), ("v", np.float64)]), np.dtype([("dt", "m8[s]")]), np.dtype([("X", np.float32), ("Y", np.float32)]),
+        np.dtype([("x", np.float32), ("y", np.float32)]), np.dtype([("obj", "O")]), np.dtype([("Name", "U10"), ("score", np.float32)]),
+        np.dtype([("inner", [("A", np.int8), ("b", "U2")]), ("k", np.uint8)]),
+    ]
+    classes = [jaxtyping.make_numpy_struct_dtype(d, f"Struct{i}") for i, d in enumerate(structs)]
+    for i, cls_ in enumerate(classes):
+        for j, d in enumerate(structs):
+            got = impl.check_once(np.zeros(1, dtype=d), cls_[np.ndarray, "..."])
+            want = "T" if str(structs[i]) == str(d) else "F"
+            out.case(("struct2", i, j), True)
+            if got != want:
+                out.violation(f"struct:{'accept' if want == 'T' else 'reject'}:case", f"the class made for {structs[i]} gives {got} for an array of dtype {d}, must be {want}",
+                              {"category_dtype": str(structs[i]), "dtype": str(d)})
+    # non-numeric NumPy dtypes under user categories: the name is that of the scalar type whatever the item size or
+    # unit, the same name a duck-typed array reports for the same data
+    nonnum = [np.dtype("U3"), np.dtype("U24"), np.dtype("S1"), np.dtype("S6"), np.dtype("O"), np.dtype("M8[ns]"), np.dtype("M8[D]"),
+              np.dtype("m8[s]"), np.dtype("m8"), np.dtype(np.bool_)]
+    for d in nonnum:
+        tname = d.type.__name__
+        for names in ([tname], [d.name], ["bool", "bool_"], ["str_", "bytes_", "object_"], ["datetime64", "timedelta64"]):
+            U = type("UserNN", (jaxtyping.AbstractDtype,), {"dtypes": list(names)})
+            got_np = impl.check_once(np.zeros(2, dtype=d), U[np.ndarray, "..."])
+            got_duck = impl.check_once(envrows.DuckArr(tname), U[typing.Any, "..."])
+            want = "T" if tname in names else "F"
+            out.case(("nonnumeric", str(d), tuple(names)), True)
+            if got_np != want or got_duck != want:
+                out.violation(f"user-category:nonnumeric:{'accept' if want == 'T' else 'reject'}",
+                              f"user category {names} on a NumPy array of dtype {d} (scalar type {tname}) gives {got_np}, on a duck array naming its dtype {tname!r} "
+                              f"gives {got_duck}; both must be {want}", {"dtype": str(d), "category": names})
     # user-defined categories: strings and patterns
-    universe = sorted({r["canon"] for r in rows} | {"my_dtype", "float", "int", "uint81", "xfloat32", "float32x", ""})
+    universe = sorted({r["canon"] for r in rows} | {"my_dtype", "float", "int", "uint81", "xfloat32", "float32x", "", "QInt8", "qint8", "Float32",
+                                                     " float32", "float32 ", "BFloat16", "FLOAT64"})
     n_user = 2000 if tier == "thorough" else 150
     for i in range(n_user):
         strings = rng.sample(universe, rng.below(4))
+        if i % 5 == 0:
+            strings = rng.sample(["QInt8", "Float32", " float32", "float32 ", "BFloat16", "FLOAT64"], 1 + rng.below(2)) + strings[:1]
         pats = rng.sample(["float.*", "u?int(8|16)", "^complex", "bool_?", ".*16", "int", "(?i)FLOAT32", "float32$"], rng.below(3))
         form = rng.below(4)
         if form == 0 and len(strings) == 1 and not pats:
@@ -183,7 +219,7 @@ def run(tier, seed, out, drv, facts):
         except Exception as e:  # noqa: BLE001
             out.violation(f"user-category:{type(e).__name__}", f"defining a category with dtypes={dtypes!r} raised {e!r}", {"dtypes": repr(dtypes)})
             continue
-        for d in rng.sample(universe, 12):
+        for d in rng.sample(universe, 12) + [x for s_ in strings for x in (s_, s_.lower(), s_.strip(), s_.upper())]:
             got = impl.check_once(envrows.DuckArr(d), U[typing.Any, "..."])
             want = (d in strings) or any(re.compile(p).match(d) for p in pats)
             if isinstance(dtypes, str):
